@@ -454,7 +454,7 @@ func VerifC14Glue() {
 		idx[i] = verifChoice(verifName("piece", i), len(verifC14Pieces))
 	}
 	sep := ";"
-	if k > 1 {
+	if k == 2 {
 		sep = []string{";", ";\n", "; "}[verifChoice("sep", 2+verifTier())]
 	}
 	in := ""
@@ -464,7 +464,7 @@ func VerifC14Glue() {
 		}
 		in += verifC14Pieces[p].sql
 	}
-	if (k == 1 || verifTier() == 1) && verifChoice("trailing", 2) == 1 {
+	if (k == 1 || k == 2 && verifTier() == 1) && verifChoice("trailing", 2) == 1 {
 		in += ";"
 	}
 	rwrand, rwtime := verifChoice("rwrand", 2) == 1, verifChoice("rwtime", 2) == 1
